@@ -145,3 +145,28 @@ End Agree.
 
 Example ex_plain_parts : forallb plain_part ["spec"; "template"; "metadata"; "app.kubernetes.io/name"] = true.
 Proof. reflexivity. Qed.
+
+(* ---------- the two models of utils.PathSplitter agree (Yaml/FieldSpec.v for "/", Yaml/Match.v for any byte) ---------- *)
+From KV Require Import Yaml.FieldSpec.
+
+Lemma merge_escaped_agree cur rest : merge_escaped cur rest = merge_escaped_c "/" cur rest.
+Proof.
+  revert cur; induction rest as [|p rest IH]; intros cur; [reflexivity|].
+  cbn [merge_escaped merge_escaped_c]. unfold ends_with_backslash.
+  destruct (has_suffix "\" cur); [apply IH|now rewrite IH].
+Qed.
+
+Lemma path_splitter_agree path : path_splitter path = path_splitter_c "/"%char path.
+Proof.
+  unfold path_splitter, path_splitter_c.
+  destruct (split_on "/" path) as [|h t]; [reflexivity|].
+  destruct h; [destruct t|]; cbn; try reflexivity; apply merge_escaped_agree.
+Qed.
+
+(* several escaped delimiters inside one element are all glued back (regression for the seeded defect C14-e) *)
+Example ex_path_splitter_multi_escape :
+  path_splitter "metadata/annotations/example.com\/team\/owner" = ["metadata"; "annotations"; "example.com/team/owner"] /\
+  path_splitter "/a\/b\/c\/d/e" = ["a/b/c/d"; "e"] /\
+  smarter_path_splitter "."%char "metadata.annotations.[a.b.c/d]" = ["metadata"; "annotations"; "a.b.c/d"] /\
+  smarter_path_splitter "."%char "spec.containers.[name=x.y.z].image" = ["spec"; "containers"; "[name=x.y.z]"; "image"].
+Proof. repeat split. Qed.
